@@ -28,6 +28,9 @@ func checkC20(p *Prog, r *Report) {
 	r.NotDec = []string{"snapshot isolation of baseapp's query multistore", "data races inside the SDK/amino caches", "any actual schedule (no race detector, no interleaving exploration)"}
 	r.Trusted = []string{"cosmos-sdk baseapp query contexts (height-bound cache multistore)", "sync primitives"}
 	kp := func(rule, rest string) string { return rule + ":C20:" + rest }
+	// D0 queries at a height read versioned stores only: a memory or transient store has one live content for all heights, so a
+	// query pinned to a past height that consults one mixes that height with the present
+	checkPersistentStoresOnly(p, r, kp, "a query at a fixed past height that reads it sees the store's present content (only committed IAVL stores are versioned by height): repeated queries at one height give different answers as later blocks execute")
 
 	// ---------------- D1: key store lock discipline ----------------
 	ks := p.Named(Rel("x/did/client/crypto"), "KeyStore")
